@@ -19,6 +19,7 @@ INJECT_PARENTS = {
     "lib": "lib.rs",
     "modular": "modular.rs",
     "boxed_monty_form": "modular/boxed_monty_form.rs",
+    "boxed_pow": "modular/boxed_monty_form/pow.rs",
     "safegcd": "modular/safegcd.rs",
     "encoding": "uint/encoding.rs",
     "uint_mul": "uint/mul.rs",
